@@ -509,4 +509,128 @@ theorem fixedSel_digits (md : Nat) (hmd : 3 ≤ md) (a : Nat × Nat) (ha2 : 0 < 
       push_cast; unfold rne; linarith
     exact_mod_cast this
 
+/-! ### The top of each fixed-notation band -/
+
+theorem ratOf_real (M : Nat) (E : Int) :
+    ((ratOf M E).1 : ℝ) / (ratOf M E).2 = (M : ℝ) * (2 : ℝ) ^ E ∧ 0 < (ratOf M E).2 := by
+  unfold ratOf
+  by_cases hE : 0 ≤ E
+  · simp only [hE, if_true]
+    refine ⟨?_, Nat.one_pos⟩
+    rw [Nat.cast_mul, two_zpow_toNat hE]; simp
+  · simp only [hE, if_false]
+    have hE' : 0 ≤ -E := by omega
+    refine ⟨?_, by positivity⟩
+    rw [two_zpow_toNat hE', zpow_neg]; field_simp
+
+theorem leR_real (a b : Nat × Nat) (ha : 0 < a.2) (hb : 0 < b.2) :
+    leR a b = true ↔ (a.1 : ℝ) / a.2 ≤ (b.1 : ℝ) / b.2 := by
+  have ha' : (0 : ℝ) < a.2 := by exact_mod_cast ha
+  have hb' : (0 : ℝ) < b.2 := by exact_mod_cast hb
+  unfold leR
+  rw [decide_eq_true_eq, div_le_div_iff₀ ha' hb']
+  constructor
+  · intro h; exact_mod_cast h
+  · intro h; exact_mod_cast h
+
+theorem ltR_real (a b : Nat × Nat) (ha : 0 < a.2) (hb : 0 < b.2) :
+    ltR a b = true ↔ (a.1 : ℝ) / a.2 < (b.1 : ℝ) / b.2 := by
+  have ha' : (0 : ℝ) < a.2 := by exact_mod_cast ha
+  have hb' : (0 : ℝ) < b.2 := by exact_mod_cast hb
+  unfold ltR
+  rw [decide_eq_true_eq, div_lt_div_iff₀ ha' hb']
+  constructor
+  · intro h; exact_mod_cast h
+  · intro h; exact_mod_cast h
+
+/-- If the band-top facts hold for `(fm, T, prec)`, every normal number of the format below `T` is
+more than half a unit of the last printed decimal below `10^(max_digits10+1-prec)`. -/
+theorem band_top (fm : Fm) (s : Bool) (m : Nat) (q : Int) (hc : Canonical fm.fmt (fin s m q))
+    (T : Nat × Nat) (hT2 : 0 < T.2) (prec : Nat) (hok : bandTopOk fm T prec = true)
+    (hlt : (m : ℝ) * (2 : ℝ) ^ q < (T.1 : ℝ) / T.2) :
+    (m : ℝ) * (2 : ℝ) ^ q * (10 : ℝ) ^ prec + 1 / 2 < (10 : ℝ) ^ (maxDigits10 fm + 1) := by
+  have hp : 1 ≤ fm.fmt.p := by cases fm <;> decide
+  unfold bandTopOk at hok
+  simp only [Bool.and_eq_true, decide_eq_true_eq] at hok
+  obtain ⟨⟨⟨⟨⟨c1, c2⟩, c3⟩, c4⟩, c5⟩, c6⟩ := hok
+  set M := (floorBelow fm.fmt T.1 T.2).1 with hM
+  set E := (floorBelow fm.fmt T.1 T.2).2 with hE
+  obtain ⟨r1, r1pos⟩ := ratOf_real (M + 1) E
+  obtain ⟨r0, r0pos⟩ := ratOf_real M E
+  have hsucc : (T.1 : ℝ) / T.2 ≤ ((M : ℝ) + 1) * (2 : ℝ) ^ E := by
+    have := (leR_real T _ hT2 r1pos).mp c5
+    rw [r1] at this; push_cast at this; exact this
+  have hF : Canonical fm.fmt (fin false M E) := ⟨c2, c3, Or.inr c1, c4⟩
+  have hxF : (m : ℝ) * (2 : ℝ) ^ q ≤ (M : ℝ) * (2 : ℝ) ^ E := by
+    by_contra hcon
+    have := canonical_gap fm.fmt hp s false m M q E hc hF c1 (not_le.mp hcon)
+    linarith
+  have h10 : (0 : ℝ) < (10 : ℝ) ^ prec := by positivity
+  have hr2 : (0 : ℝ) < ((ratOf M E).2 : ℝ) := by exact_mod_cast r0pos
+  have c6' : (2 : ℝ) * (ratOf M E).1 * (10 : ℝ) ^ prec + (ratOf M E).2 <
+      2 * (10 : ℝ) ^ (maxDigits10 fm + 1) * (ratOf M E).2 := by exact_mod_cast c6
+  have hFb : (M : ℝ) * (2 : ℝ) ^ E * (10 : ℝ) ^ prec + 1 / 2 < (10 : ℝ) ^ (maxDigits10 fm + 1) := by
+    rw [← r0]
+    have : ((ratOf M E).1 : ℝ) / (ratOf M E).2 * (10 : ℝ) ^ prec + 1 / 2 =
+        (2 * (ratOf M E).1 * (10 : ℝ) ^ prec + (ratOf M E).2) / (2 * (ratOf M E).2) := by field_simp
+    rw [this, div_lt_iff₀ (by positivity)]
+    linarith
+  have : (m : ℝ) * (2 : ℝ) ^ q * (10 : ℝ) ^ prec ≤ (M : ℝ) * (2 : ℝ) ^ E * (10 : ℝ) ^ prec :=
+    mul_le_mul_of_nonneg_right hxF h10.le
+  linarith
+
+/-- The band-top facts hold for every format and every fixed-notation band. -/
+theorem all_band_tops_ok (fm : Fm) :
+    (bandTops (maxDigits10 fm)).all (fun tp => bandTopOk fm tp.1 tp.2 && decide (0 < tp.1.2)) = true := by
+  cases fm <;> decide +kernel
+
+/-- The band that gets `prec` decimals lies below one of the listed upper thresholds. -/
+theorem bandPrec_upper (md : Nat) (a : Nat × Nat) (prec : Nat) (h : bandPrec md a = some prec) :
+    ∃ tp ∈ bandTops md, tp.2 = prec ∧ ltR a tp.1 = true := by
+  unfold bandPrec at h
+  unfold bandTops
+  split at h
+  · rename_i h0
+    split at h
+    · cases h
+    · split at h
+      · rename_i h1
+        split at h
+        · rename_i h2
+          cases h; exact ⟨(thr 1 100, md + 3), by simp, rfl, h2⟩
+        · cases h; exact ⟨(thr 1 10, md + 2), by simp, rfl, h1⟩
+      · cases h; exact ⟨(thr 1 1, md + 1), by simp, rfl, h0⟩
+  · split at h
+    · rename_i g3
+      split at h
+      · rename_i g1
+        cases h; exact ⟨(thr 10 1, md), by simp, rfl, g1⟩
+      · split at h
+        · rename_i g2
+          cases h; exact ⟨(thr 100 1, md - 1), by simp, rfl, g2⟩
+        · cases h; exact ⟨(thr 1000 1, md - 2), by simp, rfl, g3⟩
+    · split at h
+      · rename_i g4
+        cases h; exact ⟨(thr 10000 1, md - 3), by simp, rfl, g4⟩
+      · cases h
+
+/-- **C15 (digit count, fixed notation).** For every normal number of each format that the cascade
+prints in fixed notation, the digits printed form an integer in `[10^md, 10^(md+1))`: exactly
+`max_digits10 + 1` significant digits. -/
+theorem fixedSel_exact_digits (fm : Fm) (s : Bool) (m : Nat) (q : Int)
+    (hc : Canonical fm.fmt (fin s m q)) (a : Nat × Nat) (ha2 : 0 < a.2)
+    (hax : (a.1 : ℝ) / a.2 = (m : ℝ) * (2 : ℝ) ^ q) (prec : Nat)
+    (h : bandPrec (maxDigits10 fm) a = some prec) (neg : Bool) :
+    ∃ sc, fixedSel neg prec a.1 a.2 = .fixed neg sc prec ∧ 10 ^ maxDigits10 fm ≤ sc ∧
+      sc < 10 ^ (maxDigits10 fm + 1) := by
+  obtain ⟨sc, h1, h2, h3⟩ := fixedSel_digits _ (maxDigits10_ok fm).1 a ha2 prec h neg
+  refine ⟨sc, h1, h2, h3 ?_⟩
+  obtain ⟨tp, htp, hprec, hlt⟩ := bandPrec_upper _ a prec h
+  have hok := List.all_eq_true.mp (all_band_tops_ok fm) tp htp
+  simp only [Bool.and_eq_true, decide_eq_true_eq] at hok
+  have hltR := (ltR_real a tp.1 ha2 hok.2).mp hlt
+  rw [hax] at hltR ⊢
+  rw [← hprec]
+  exact band_top fm s m q hc tp.1 hok.2 tp.2 hok.1 hltR
+
 end PhQVerif.Print
